@@ -362,3 +362,41 @@ def string_match_table(F, B, adt_suffix):
         else:
             table.setdefault(hit, set()).add(res)
     return table, nomatch, lowered
+
+
+def loop_keeps_all(B, skip_tests):
+    """every iteration of the (single) `for` loop pushes its element, unless it takes one of the accepted skip edges.
+    skip_tests: [(callee suffix, outcome)] e.g. ("is_file", False) = the edge on which is_file() is false.
+    Iterations that leave the function (error return) are not skips. Returns (ok, detail)."""
+    pushes = [c[0] for c in B.calls_named("Vec::push")]
+    heads = q.loop_headers(B)
+    if len(pushes) != 1 or not heads:
+        return False, "pushes %d, loops %d" % (len(pushes), len(heads))
+    hdr = q.outer_loop_header(B, pushes[0])
+    if hdr is None:
+        return False, "the push is not inside a loop"
+    body = B.reach([hdr]) & {b for b in range(len(B.blocks)) if hdr in B.reach([b])}
+    nx = [c for c in B.calls_named("Iterator::next") if c[0] in body]
+    if len(nx) != 1:
+        return False, "next() calls in the loop: %d" % len(nx)
+    dl = nx[0][3]["dest"]["l"]
+    some = []
+    for sb in B.switch_blocks():
+        e = B.cond(sb)
+        if e[0] == "discr" and e[1]["l"] == dl and not e[1]["p"]:
+            some += [tg for tg, lab in B.succ(sb) if lab == mir.STD_VARIANTS["Some"]]
+    allowed = []
+    tests_in_loop = []
+    for sb, tr, fa, cb, args in q.bool_call_edges(B, [s for s, _ in skip_tests]):
+        if sb not in body:
+            continue
+        callee = q.base_name(mir.callee_of(B.blocks[cb]["term"])[0])
+        for s, outcome in skip_tests:
+            if q.ends(callee, s):
+                allowed.append(tr if outcome else fa)
+    if not some:
+        return False, "no Some edge of next() found"
+    p = B.path(some, [hdr], cut_blocks=pushes, cut_edges=allowed)
+    if p is not None:
+        return False, "an element can be skipped along lines %s" % B.path_lines(p)
+    return True, "every element is pushed (accepted skips: %s)" % ", ".join("%s()==%s" % x for x in skip_tests)
